@@ -29,6 +29,8 @@ def get_used_qubit_indices(obj, context=None):
 
 class UsedQubitIndicesVisitor(Visitor):
     validate_parallel = False
+    # Every qubit of the circuit; only known once a circuit is visited
+    all_qubits = None
 
     def visit_default(self, obj, *args, **kwargs):
         """Anything that isn't explicitly listed here can't have any qubits."""
@@ -48,7 +50,17 @@ class UsedQubitIndicesVisitor(Visitor):
 
         for n, sub_obj in self.trace_statements(obj.statements):
             self.merge_into(indices, self.visit(sub_obj, context=context))
+        if obj.subcircuit:
+            # A subcircuit block prepares and measures every qubit
+            self.merge_into(indices, self._all_qubits())
         return indices
+
+    def _all_qubits(self):
+        if self.all_qubits is None:
+            raise JaqalError(
+                "The qubits used by a gate acting on all qubits are only known within a circuit"
+            )
+        return self.all_qubits
 
     def visit_Circuit(self, obj, context=None):
         # Work around prepare_all/measure_all not taking a register
@@ -77,7 +89,7 @@ class UsedQubitIndicesVisitor(Visitor):
         else:
             for param in obj.used_qubits:
                 if param is all:
-                    self.merge_into(indices, self.all_qubits)
+                    self.merge_into(indices, self._all_qubits())
                 else:
                     self.merge_into(indices, self.visit(param, context=context))
             return indices
@@ -92,6 +104,8 @@ class UsedQubitIndicesVisitor(Visitor):
             except JaqalError:
                 # Not resolvable yet (e.g. when inspecting a macro body on its own)
                 return arg
+            if isinstance(idx, float) and idx.is_integer():
+                idx = int(idx)
             return reg[idx]
         return arg
 
